@@ -7,7 +7,18 @@ import json, os, re
 import xml.etree.ElementTree as ET
 import vf, xmltree
 
-CB_ARG = {"proc_begin": lambda a: a[0], "proc_location": lambda a: a[0], "proc_location_commit": lambda a: a[0], "proc_location_urgent": lambda a: a[0],
+SKIP = object()
+
+
+def _b(x):
+    return "true" if x else "false"
+
+
+CB_ARG = {"proc_begin": lambda a: a[0] if (len(a) < 2 or a[1]) else "%s:%s:%s" % (a[0], a[2], a[3]),
+          "proc_instance_line": lambda a: "", "prechart_set": lambda a: _b(a[0]),
+          "proc_message": lambda a: SKIP if len(a) < 4 else "%s->%s:%d:%s" % (a[0], a[1], a[2], _b(a[3])),           # the one-argument overloads are grammar callbacks
+          "proc_condition": lambda a: SKIP if len(a) < 4 else "%s:%d:%s:%s" % (",".join(a[0]), a[1], _b(a[2]), _b(a[3])),
+          "proc_LSC_update": lambda a: SKIP if len(a) < 3 else "%s:%d:%s" % (a[0], a[1], _b(a[2])), "proc_location": lambda a: a[0], "proc_location_commit": lambda a: a[0], "proc_location_urgent": lambda a: a[0],
           "proc_branchpoint": lambda a: a[0], "proc_location_init": lambda a: a[0], "proc_edge_begin": lambda a: "%s->%s:%s" % (a[0], a[1], "true" if a[2] else "false"),
           "proc_edge_end": lambda a: "", "proc_end": lambda a: "", "model_option": lambda a: a[0], "query_begin": lambda a: "", "query_formula": lambda a: a[1],
           "query_comment": lambda a: "", "query_options": lambda a: a[0], "expectation_begin": lambda a: "", "expectation_value": lambda a: "", "expectation_end": lambda a: "",
@@ -23,7 +34,9 @@ def real_events(r):
         if cb == "add_position" and a[1] == 0 and a[2] == 1:
             out.append(("path", a[3] or ""))
         elif cb in CB_ARG:
-            out.append((cb, CB_ARG[cb](a) or ""))
+            v = CB_ARG[cb](a)
+            if v is not SKIP:
+                out.append((cb, v or ""))
     return out
 
 
@@ -51,10 +64,16 @@ def real_outcome(r):
 def run(c, quick, variant="asan"):
     """-> list of dicts {id, what, ws, xml, spec, real, spec_outcome, real_outcome, agree}"""
     muts = xmltree.mutations(xmltree.base_doc())
+    lsc = xmltree.base_lsc_doc()
+    lmuts = [(w, t) for w, t in xmltree.mutations(lsc) if w == "none" or w.split(" ", 1)[1].startswith("3")]       # mutations of the <lsc> element (child 3 of <nta>) and of everything below it
+    lmuts += xmltree.lsc_text_variants(lsc)
     docs = []
     for k, (what, tree) in enumerate(muts):
         for ws in (False, True):
             docs.append({"id": "d%d%s" % (k, "w" if ws else "n"), "what": what, "ws": ws, "tree": tree})
+    for k, (what, tree) in enumerate(lmuts):
+        for ws in (False, True):
+            docs.append({"id": "l%d%s" % (k, "w" if ws else "n"), "what": "lsc: " + what, "ws": ws, "tree": tree})
     path = os.path.join(c.run_dir, "xmldocs.ndjson")
     vf.write_ndjson(path, [{"id": d["id"], "events": xmltree.events(d["tree"], d["ws"])} for d in docs])
     mc = vf.run_tlc("XmlReader", "XmlReader.cfg", c.run_dir, env={"XML_DOCS": path}, timeout=3000, xmx="16g", workers=1, keep_out=False)
